@@ -13,7 +13,7 @@ import ast
 from fractions import Fraction
 
 from .forms import (Const, DictV, Form, SliceV, TupleV, as_form, canon_call, fpow, mk_attr, mk_fn, mk_idx,
-                    vkey, F0, F1)
+                    vkey, F0, F1, const_float)
 from .srcmodel import PKG, AnalysisError, FuncInfo, Package, src_of
 
 SIGNAL_CLASSES = ("electrical_signal", "optical_signal", "binary_sequence", "eye")
@@ -1243,6 +1243,10 @@ class Interp:
                 res = self._eq(l, r, st)
                 if res is None and self.domain_sign is not None and isinstance(l, Form) and isinstance(r, Form) and self.domain_sign(l - r) in (1, -1):
                     res = False          # strictly apart on the property's domain
+                if res is None and isinstance(l, Form) and isinstance(r, Form):
+                    cf_ = const_float(l - r)         # a constant written with log(10), e ...: apart when its value is not zero
+                    if cf_ is not None and cf_ != 0.0:
+                        res = False
                 if res is None:
                     return None
                 return res if isinstance(op, ast.Eq) else not res
